@@ -31,9 +31,26 @@ def _run(c, prop):
                       'a close spawned by a failing subscribe is replayed as starting immediately']
 
 
+def _presence_stats(c):
+    quick = c.tier == 'quick'
+    r = c.tlc_exhaustive('Presence', 'Presence', 'quick.cfg' if quick else 'thorough.cfg', workers=4, timeout=1200)
+    c.log('TLC exhaustive Presence: %d distinct / %d generated' % (r['distinct'], r['states']))
+    s = c.tlc('Presence', 'Presence', 'sim.cfg', simulate=500 if quick else 5000, depth=16, timeout=600)
+    if not s['ok']:
+        raise vf.Inconclusive('Presence simulation: %s' % s['out'][-2000:])
+    res = c.harness(c.go_build('presence'), 'replay', c.behaviours(s), timeout=600)
+    c.absorb(res)
+    c.cov['presence_stats_behaviours'] = res['completed']
+    c.cov['traces_validated_against_impl'] += res['completed']
+    c.cov['evaluations'] += res['executed']
+    c.cov['distinct_nontrivial'] += res['nontrivial']
+
+
 def mk(prop):
     def f(c):
         _run(c, prop)
+        if prop == 'C06':
+            _presence_stats(c)
     return f
 
 
@@ -46,7 +63,7 @@ _t = 'TLA+ spec + TLC exhaustive; gate replay of TLC behaviours on real goroutin
 META = {
     'C04': dict(level='model_checking', text='SubLifecycle.tla models reservation/commit/rollback with generations, the unsubscribe wait gate and generation-matched delete, close, hub entries; invariant: once settled, subscribed <=> exactly one routing entry of that generation. Replayed on real clients thread by thread; at the end the connection is probed with a marker publication (received exactly once iff it reports subscribed) and Hub.NumSubscribers.', note=_note, technique=_t),
     'C05': dict(level='model_checking', text='Same spec: after close in any interleaving with subscribe/unsubscribe/tick no channel entry, routing entry, registered connection or presence entry remains; checked on the real node after each complete behaviour that closes.', note=_note, technique=_t),
-    'C06': dict(level='model_checking', text='Same spec with the presence manager as a gate: after the operations settled and one presence tick ran, presence contains the connection iff it is subscribed.', note=_note + ' Presence statistics (counts) are not covered here.', technique=_t),
+    'C06': dict(level='model_checking', text='Same spec with the presence manager as a gate: after the operations settled and one presence tick ran, presence contains the connection iff it is subscribed.', note=_note + ' Statistics clause: spec/Presence (add/remove/read sequences over 3 clients x 2 users x 2 channels) replayed on the MemoryPresenceManager; Redis presence manager not observable here.', technique=_t),
     'C07': dict(level='model_checking', text='Same spec, join/leave observed where they reach the broker: per subscription one join before at most one leave; observably every prefix has at least as many joins as leaves and joins-leaves = 1 iff still subscribed.', note=_note, technique=_t),
     'C26': dict(level='model_checking', text='Same spec with Broker.Subscribe/Unsubscribe as gates and the dissolver job: local subscribers imply a broker subscription outside the addSubscription critical section; after jobs drain broker-subscribed <=> local subscribers.', note=_note + ' Broker call failures/retries not modelled.', technique=_t),
 }
